@@ -327,6 +327,31 @@ Qed.
 Lemma Forall2_refl_rel {A} (P : A -> A -> Prop) l : (forall a, P a a) -> Forall2 P l l.
 Proof. intros H. induction l; constructor; auto. Qed.
 
+(* ---------- the tail of the [run] closure ---------- *)
+Lemma run_lists_inv r1 active r2 o :
+  run_lists r1 active = (r2, o) ->
+  r_id r2 = r_id r1 /\ r_conds r2 = r_conds r1 /\ r_active r2 = r_active r1 /\
+  filter is_action_out o = action_points (r_id r1) (r_acts r1) (r_iacts r1) active /\
+  Forall2 (arel active) (r_acts r1) (r_acts r2) /\
+  Forall2 (arel (negb active)) (r_iacts r1) (r_iacts r2).
+Proof.
+  unfold run_lists. destruct active.
+  - destruct (acts_loop (r_id r1) _ (r_error r1) [] (r_acts r1)) as [[acts' rerr'] o2] eqn:HA.
+    apply acts_loop_inv in HA. destruct HA as (l2 & Hl & HF & Hf). cbn [rev app] in Hl. subst l2.
+    pose proof (inactive_loop_inv (r_id r1) (r_iacts r1)) as (HI1 & HI2).
+    destruct (inactive_loop (r_id r1) (r_iacts r1)) as [iacts' o3]. cbn [fst snd] in HI1, HI2.
+    intros H; inversion H; subst r2 o. cbn [r_id r_conds r_active r_acts r_iacts negb].
+    repeat split; try assumption.
+    rewrite filter_app, Hf, HI2. reflexivity.
+  - destruct (acts_loop (r_id r1) _ (r_error r1) [] (r_iacts r1)) as [[iacts' rerr'] o2] eqn:HA.
+    apply acts_loop_inv in HA. destruct HA as (l2 & Hl & HF & Hf). cbn [rev app] in Hl. subst l2.
+    pose proof (inactive_loop_inv (r_id r1) (r_acts r1)) as (HI1 & HI2).
+    destruct (inactive_loop (r_id r1) (r_acts r1)) as [acts' o3]. cbn [fst snd] in HI1, HI2.
+    intros H; inversion H; subst r2 o. cbn [r_id r_conds r_active r_acts r_iacts negb].
+    repeat split; try assumption.
+    rewrite filter_app, Hf, HI2. reflexivity.
+Qed.
+
 (* ---------- one run of the [run] closure ---------- *)
 Section Step.
 Variable tcmp : bytes -> bytes -> bytes -> bool.
@@ -344,27 +369,14 @@ Proof.
   apply process_inv in HP.
   destruct HP as (Hid & Hacts & Hiacts & _ & Hall & Hactive & Hchanged & Hlow).
   destruct changed; cbn [negb].
-  - destruct active.
-    + destruct (acts_loop (r_id r1) _ (r_error r1) [] (r_acts r1)) as [[acts' rerr'] o2] eqn:HA.
-      apply acts_loop_inv in HA. destruct HA as (l2 & Hl & HF & Hf). cbn [rev app] in Hl. subst l2.
-      pose proof (inactive_loop_inv (r_id r1) (r_iacts r1)) as (HI1 & HI2).
-      destruct (inactive_loop (r_id r1) (r_iacts r1)) as [iacts' o3]. cbn [fst snd] in HI1, HI2.
-      intros H; inversion H; subst r' o. cbn [r_id r_conds r_active r_acts r_iacts].
-      split; [exact Hid|split; [reflexivity|split; [exact Hall|]]].
-      rewrite <- Hchanged, <- Hactive. cbv iota. split; [|split].
-      * rewrite !filter_app, Hlow, Hf, HI2. unfold action_points. rewrite Hid, Hacts, Hiacts. reflexivity.
-      * rewrite <- Hacts. eapply Forall2_impl; [|exact HF]. intros a a' (H1 & H2). split; assumption.
-      * rewrite <- Hiacts. eapply Forall2_impl; [|exact HI1]. intros a a' (H1 & H2). split; assumption.
-    + destruct (acts_loop (r_id r1) _ (r_error r1) [] (r_iacts r1)) as [[iacts' rerr'] o2] eqn:HA.
-      apply acts_loop_inv in HA. destruct HA as (l2 & Hl & HF & Hf). cbn [rev app] in Hl. subst l2.
-      pose proof (inactive_loop_inv (r_id r1) (r_acts r1)) as (HI1 & HI2).
-      destruct (inactive_loop (r_id r1) (r_acts r1)) as [acts' o3]. cbn [fst snd] in HI1, HI2.
-      intros H; inversion H; subst r' o. cbn [r_id r_conds r_active r_acts r_iacts].
-      split; [exact Hid|split; [reflexivity|split; [exact Hall|]]].
-      rewrite <- Hchanged, <- Hactive. cbv iota. split; [|split].
-      * rewrite !filter_app, Hlow, Hf, HI2. unfold action_points. rewrite Hid, Hacts, Hiacts. reflexivity.
-      * rewrite <- Hacts. eapply Forall2_impl; [|exact HI1]. intros a a' (H1 & H2). split; assumption.
-      * rewrite <- Hiacts. eapply Forall2_impl; [|exact HF]. intros a a' (H1 & H2). split; assumption.
+  - destruct (run_lists r1 active) as [r2 o2] eqn:HR.
+    apply run_lists_inv in HR. destruct HR as (Hid2 & Hc2 & Ha2 & Hf & HF1 & HF2).
+    intros H; inversion H; subst r' o.
+    split; [rewrite Hid2; exact Hid|split; [exact Hc2|split; [rewrite Ha2, Hc2; exact Hall|]]].
+    rewrite Ha2, <- Hchanged, <- Hactive. cbv iota. split; [|split].
+    + rewrite filter_app, Hlow, Hf. rewrite Hid, Hacts, Hiacts. reflexivity.
+    + rewrite <- Hacts. eapply Forall2_impl; [|exact HF1]. intros a a' (H1 & H2). split; assumption.
+    + rewrite <- Hiacts. eapply Forall2_impl; [|exact HF2]. intros a a' (H1 & H2). split; assumption.
   - intros H; inversion H; subst r' o.
     split; [exact Hid|split; [reflexivity|split; [exact Hall|]]].
     rewrite <- Hchanged. cbv iota. split; [|split].
@@ -445,3 +457,149 @@ Theorem history_steps w r h :
                    r_active ra = forallb c_active (r_conds ra) /\ step_ok rb ra o)
          (trace text_cmp w r h).
 Proof. apply trace_steps. Qed.
+
+(* ---------- the configuration-change path of Run ---------- *)
+Lemma upd_first_inv {A} (f : A -> bool) (g : A -> A) : forall l l',
+  upd_first f g l = Some l' -> Forall2 (fun a a' => a' = a \/ a' = g a) l l'.
+Proof.
+  induction l as [|x l IH]; intros l'; cbn [upd_first]; [discriminate|].
+  destruct (f x).
+  - intros H; inversion H; subst. constructor; [right; reflexivity|].
+    apply Forall2_refl_rel. intros a. left; reflexivity.
+  - destruct (upd_first f g l) as [l''|]; [|discriminate].
+    intros H; inversion H; subst. constructor; [left; reflexivity|apply IH; reflexivity].
+Qed.
+
+Lemma fold_merge_ccfg_id pts : forall k, c_id (fold_left merge_ccfg pts k) = c_id k.
+Proof.
+  induction pts as [|p pts IH]; intros k; [reflexivity|]. cbn [fold_left]. rewrite IH.
+  unfold merge_ccfg.
+  destruct (bytes_eqb (p_type p) s_value); [reflexivity|].
+  destruct (bytes_eqb (p_type p) s_valueText); [reflexivity|].
+  destruct (bytes_eqb (p_type p) s_operator); reflexivity.
+Qed.
+
+Lemma fold_merge_acfg_id pts : forall k, a_id (fold_left merge_acfg pts k) = a_id k.
+Proof.
+  induction pts as [|p pts IH]; intros k; [reflexivity|]. cbn [fold_left]. rewrite IH.
+  unfold merge_acfg.
+  destruct (bytes_eqb (p_type p) s_value); [reflexivity|].
+  destruct (bytes_eqb (p_type p) s_valueText); reflexivity.
+Qed.
+
+Definition cshape (c c' : cond) : Prop :=
+  c_id (c_cfg c') = c_id (c_cfg c) /\ c_active c' = c_active c /\ c_error c' = c_error c.
+Definition ashape (a a' : action) : Prop :=
+  a_id (a_cfg a') = a_id (a_cfg a) /\ a_active a' = a_active a /\ a_error a' = a_error a.
+
+Lemma merge_cond_shape pts sch c : cshape c (merge_cond pts sch c).
+Proof.
+  unfold cshape, merge_cond, set_c_cfg. cbn [c_cfg c_active c_error]. split; [|split; reflexivity].
+  destruct sch as [h|]; [destruct (existsb is_sched_edit pts)|]; cbn [ccfg_set_sched c_id]; apply fold_merge_ccfg_id.
+Qed.
+
+Lemma merge_action_shape pts a : ashape a (merge_action pts a).
+Proof.
+  unfold ashape, merge_action, set_a_cfg. cbn [a_cfg a_active a_error]. split; [|split; reflexivity].
+  apply fold_merge_acfg_id.
+Qed.
+
+Lemma upd_first_shape {A} (P : A -> A -> Prop) (f : A -> bool) (g : A -> A) l l' :
+  (forall a, P a a) -> (forall a, P a (g a)) -> upd_first f g l = Some l' -> Forall2 P l l'.
+Proof.
+  intros Hr Hg H. apply upd_first_inv in H. eapply Forall2_impl; [|exact H].
+  intros a a' [->| ->]; auto.
+Qed.
+
+Lemma cshape_refl c : cshape c c. Proof. repeat split. Qed.
+Lemma ashape_refl a : ashape a a. Proof. repeat split. Qed.
+
+Lemma merge_same_shape r node pts sch : same_shape r (merge r node pts sch).
+Proof.
+  assert (Hrefl : same_shape r r).
+  { repeat split; apply Forall2_refl_rel; intros; repeat split. }
+  unfold merge.
+  destruct (is_empty node); [exact Hrefl|].
+  destruct (bytes_eqb node (r_id r)); [exact Hrefl|].
+  destruct (upd_first _ (merge_cond pts sch) (r_conds r)) as [cs|] eqn:HC.
+  { unfold same_shape. cbn [r_id r_active r_error r_conds r_acts r_iacts].
+    repeat split; try (apply Forall2_refl_rel; intros; repeat split).
+    eapply (upd_first_shape cshape); [apply cshape_refl|apply merge_cond_shape|exact HC]. }
+  destruct (upd_first _ (merge_action pts) (r_acts r)) as [l|] eqn:HA.
+  { unfold same_shape. cbn [r_id r_active r_error r_conds r_acts r_iacts].
+    repeat split; try (apply Forall2_refl_rel; intros; repeat split).
+    eapply (upd_first_shape ashape); [apply ashape_refl|apply merge_action_shape|exact HA]. }
+  destruct (upd_first _ (merge_action pts) (r_iacts r)) as [l|] eqn:HI; [|exact Hrefl].
+  unfold same_shape. cbn [r_id r_active r_error r_conds r_acts r_iacts].
+  repeat split; try (apply Forall2_refl_rel; intros; repeat split).
+  eapply (upd_first_shape ashape); [apply ashape_refl|apply merge_action_shape|exact HI].
+Qed.
+
+Section StepCfg.
+Variable tcmp : bytes -> bytes -> bytes -> bool.
+Variable w : window_t.
+
+Lemma step_cfg_inv r node pts sch t ra o :
+  step_cfg tcmp w r node pts sch t = (ra, o) ->
+  let rm := merge r node pts sch in
+  r_id ra = r_id r /\
+  r_conds ra = r_conds (fst (fst (fst (process tcmp w rm (r_id rm) [trigger_point t])))) /\
+  r_active ra = forallb c_active (r_conds ra) /\
+  cfg_step_ok rm ra o.
+Proof.
+  unfold step_cfg, cfg_step_ok. cbn zeta.
+  pose proof (merge_same_shape r node pts sch) as (Hmid & _).
+  set (rm := merge r node pts sch) in *.
+  destruct (process tcmp w rm (r_id rm) [trigger_point t]) as [[[r1 o1] active] changed] eqn:HP. cbn [fst].
+  apply process_inv in HP.
+  destruct HP as (Hid & Hacts & Hiacts & _ & Hall & Hactive & _ & Hlow).
+  destruct (run_lists r1 active) as [r2 o2] eqn:HR.
+  apply run_lists_inv in HR. destruct HR as (Hid2 & Hc2 & Ha2 & Hf & HF1 & HF2).
+  intros H; inversion H; subst ra o.
+  split; [rewrite Hid2, Hid; exact Hmid|split; [exact Hc2|split; [rewrite Ha2, Hc2; exact Hall|]]].
+  rewrite Ha2, <- Hactive. split; [|split].
+  - rewrite filter_app, Hlow, Hf. rewrite Hid, Hacts, Hiacts. reflexivity.
+  - rewrite <- Hacts. eapply Forall2_impl; [|exact HF1]. intros a a' (H1 & H2). split; assumption.
+  - rewrite <- Hiacts. eapply Forall2_impl; [|exact HF2]. intros a a' (H1 & H2). split; assumption.
+Qed.
+
+End StepCfg.
+
+(* conditions after a configuration change: evaluated, as configured after the
+   merge, on the trigger point at the rule's id *)
+Theorem config_change_conditions w r node pts sch t :
+  Forall2 (cond_follows w [(r_id r, trigger_point t)])
+          (r_conds (merge r node pts sch)) (r_conds (fst (step_cfg text_cmp w r node pts sch t))).
+Proof.
+  destruct (step_cfg text_cmp w r node pts sch t) as [ra o] eqn:HS. cbn [fst].
+  apply step_cfg_inv in HS. cbn zeta in HS. destruct HS as (_ & Hc & _). rewrite Hc.
+  pose proof (merge_same_shape r node pts sch) as (Hmid & _).
+  pose proof (process_conditions w (merge r node pts sch) (r_id (merge r node pts sch)) [trigger_point t]) as H.
+  rewrite <- Hmid. exact H.
+Qed.
+
+Theorem config_change_rule_active w r node pts sch t :
+  let ra := fst (step_cfg text_cmp w r node pts sch t) in r_active ra = forallb c_active (r_conds ra).
+Proof.
+  cbn zeta. destruct (step_cfg text_cmp w r node pts sch t) as [ra o] eqn:HS. cbn [fst].
+  apply step_cfg_inv in HS. cbn zeta in HS. destruct HS as (_ & _ & H & _). exact H.
+Qed.
+
+(* the lists run on every configuration change *)
+Theorem config_change_always w r node pts sch t :
+  cfg_step_ok (merge r node pts sch) (fst (step_cfg text_cmp w r node pts sch t)) (snd (step_cfg text_cmp w r node pts sch t)).
+Proof.
+  destruct (step_cfg text_cmp w r node pts sch t) as [ra o] eqn:HS. cbn [fst snd].
+  apply step_cfg_inv in HS. cbn zeta in HS. destruct HS as (_ & _ & _ & H). exact H.
+Qed.
+
+(* in particular when the rule's state changes *)
+Theorem config_change_actions w r node pts sch t :
+  let rm := merge r node pts sch in
+  let ra := fst (step_cfg text_cmp w r node pts sch t) in
+  let o := snd (step_cfg text_cmp w r node pts sch t) in
+  same_shape r rm /\
+  (r_active ra <> r_active r -> cfg_step_ok rm ra o).
+Proof.
+  cbn zeta. split; [apply merge_same_shape|]. intros _. apply config_change_always.
+Qed.
